@@ -25,21 +25,32 @@ type Field struct {
 
 // Case is one response whose addressing fields are drawn from classes.
 type Case struct {
-	RespIssuer  Field   `json:"resp_issuer"`
-	AsrtIssuer  Field   `json:"asrt_issuer"`
-	Recipients  []Field `json:"recipients"` // one per subject confirmation
-	Audiences   []Field `json:"audiences"`  // 0..3
-	OneRestr    bool    `json:"one_restriction,omitempty"` // all audiences inside one AudienceRestriction
-	Destination Field   `json:"destination"`
-	DestIsAt    bool    `json:"dest_is_received_at,omitempty"` // class correct means: equals the received-at URL (not the ACS URL)
-	Status      string  `json:"status"`                     // success | requester | responder | versionmismatch | authnfailed | nested | success-nested | empty | absent
-	RespSigned  bool    `json:"resp_signed"`
-	AsrtSigned  bool    `json:"asrt_signed"`
-	NoEntityID  bool    `json:"no_entity_id,omitempty"`
-	Validator   string  `json:"validator,omitempty"` // "" | accept | reject | own
-	ReceivedAt  string  `json:"received_at"`         // acs | other | acsquery
-	Entry       string  `json:"entry"`               // xml | post | artifact
-	Encrypted   bool    `json:"encrypted,omitempty"`
+	RespIssuer  Field    `json:"resp_issuer"`
+	AsrtIssuer  Field    `json:"asrt_issuer"`
+	Recipients  []Field  `json:"recipients"`                // one per subject confirmation
+	Audiences   []Field  `json:"audiences"`                 // 0..3
+	OneRestr    bool     `json:"one_restriction,omitempty"` // all audiences inside one AudienceRestriction
+	Destination Field    `json:"destination"`
+	DestIsAt    bool     `json:"dest_is_received_at,omitempty"` // class correct means: equals the received-at URL (not the ACS URL)
+	Status      string   `json:"status"`                        // success | requester | responder | versionmismatch | authnfailed | nested | success-nested | empty | absent
+	RespSigned  bool     `json:"resp_signed"`
+	AsrtSigned  bool     `json:"asrt_signed"`
+	NoEntityID  bool     `json:"no_entity_id,omitempty"`
+	Validator   string   `json:"validator,omitempty"` // "" | accept | reject | own
+	ReceivedAt  string   `json:"received_at"`         // acs | other | acsquery
+	Entry       string   `json:"entry"`               // xml | post | artifact
+	Encrypted   bool     `json:"encrypted,omitempty"`
+	Methods     []string `json:"methods,omitempty"` // per confirmation: "" = bearer | hok | sv
+}
+
+func methodURI(m string) string {
+	switch m {
+	case "hok":
+		return "urn:oasis:names:tc:SAML:2.0:cm:holder-of-key"
+	case "sv":
+		return "urn:oasis:names:tc:SAML:2.0:cm:sender-vouches"
+	}
+	return ""
 }
 
 const ownAudience = "urn:custom:audience-of-the-application"
@@ -113,8 +124,12 @@ func check(c Case) pbt.Result {
 	a := &r.Assertions[0]
 	a.Issuer = value(c.AsrtIssuer, spkit.IDPEntity)
 	a.Confirmations = nil
-	for _, rf := range c.Recipients {
-		a.Confirmations = append(a.Confirmations, forge.Confirmation{Recipient: value(rf, spkit.SPACS), InResponseTo: forge.S("id-req"), NotOnOrAfter: forge.TP(now.Add(300e9))})
+	for i, rf := range c.Recipients {
+		m := ""
+		if i < len(c.Methods) {
+			m = methodURI(c.Methods[i])
+		}
+		a.Confirmations = append(a.Confirmations, forge.Confirmation{Method: m, Recipient: value(rf, spkit.SPACS), InResponseTo: forge.S("id-req"), NotOnOrAfter: forge.TP(now.Add(300e9))})
 	}
 	a.Audiences = nil
 	var auds []string
@@ -354,6 +369,7 @@ func gen(t *rapid.T) Case {
 	nrec := rapid.SampledFrom([]int{1, 1, 1, 2, 3, 0}).Draw(t, "nrec")
 	for i := 0; i < nrec; i++ {
 		c.Recipients = append(c.Recipients, genField(t, "recipient", true))
+		c.Methods = append(c.Methods, rapid.SampledFrom([]string{"", "", "", "hok", "sv"}).Draw(t, "method"))
 	}
 	naud := rapid.IntRange(0, 3).Draw(t, "naud")
 	for i := 0; i < naud; i++ {
@@ -425,6 +441,7 @@ func enumSingleFault(_ string, emit func(Case)) {
 							c.Recipients = []Field{f}
 						case 3:
 							c.Recipients = []Field{ok, f}
+							c.Methods = []string{"", []string{"hok", "sv", ""}[len(f.Kind)%3]}
 						case 4:
 							if f.Class == "absent" {
 								c.Audiences = nil
@@ -463,10 +480,10 @@ var prop = &pbt.Prop[Case]{
 		"exhaustive single-fault enumeration of every class and near-miss kind in every slot plus rapid full combinations. " +
 		"oracle: executable restatement of the property, three-valued (mixed audiences, zero confirmations, Destination=\"\" on unsigned responses, signed responses inside artifact responses: don't-care). " +
 		"non-trivial: >= 1 near-miss, or >= 2 non-correct fields, or entity-ID fallback / custom validator / received-at URL != ACS in play. distinct: sha256 of the JSON case.",
-	Gen:   gen,
-	Check: check,
-	Reset: fix.Reset,
-	Enums: []pbt.Enum[Case]{{Name: "single-fault-grid", Each: enumSingleFault}},
+	Gen:         gen,
+	Check:       check,
+	Reset:       fix.Reset,
+	Enums:       []pbt.Enum[Case]{{Name: "single-fault-grid", Each: enumSingleFault}},
 	Assumptions: []string{"instants, InResponseTo and signatures are valid in every case so that acceptance hinges on the addressing fields alone"},
 }
 
